@@ -856,7 +856,7 @@ class Run:
         """the PrimMachine design model; every case it exports (a writer call, then the matching reader) is executed on the real
         primitives and the recorded events are judged by the trace specification with THIS property's clauses"""
         r = self.model("MCPrims.tla", "MCPrims.cfg" if self.tier == "quick" else "MCPrims_thorough.cfg",
-                       note="every writer call of the finite family MCPrims!AllCalls followed by the matching reader: ExactWidth, ReadBack, PairRelation, WrapRefused")
+                       note="every writer call of the finite family MCPrims!AllCalls, on a fresh and on a recycled buffer (320 stale bytes of spare capacity), followed by the matching reader: ExactWidth, ReadBack, PairRelation, WrapRefused, SpareIgnored")
         cases = [parse_tla_string(x) for x in tlc_prints(r["out"], "PRIMCASE")]
         if not cases:
             raise Broken("no primitive case exported")
@@ -867,8 +867,14 @@ class Run:
             for k, cs in enumerate(cases):
                 c = json.loads(cs)
                 b = "b%d" % (k % 40)
-                group += [{"op": "write", "b": b, "bytes": [9, 9, 9]}, {"op": "next", "b": b, "k": 3},     # consumed prior content: the primitive must only append
-                          {"op": "prim", "b": b, "fn": c["fn"], "args": c["a"], "tag": "model-case"}]
+                if c.get("recycled"):
+                    # the model's recycled buffer: stale bytes lie in the spare capacity behind the buffer's end
+                    b = "r%d" % (k % 40)
+                    group += [{"op": "reset", "b": b}, {"op": "write", "b": b, "bytes": c["stale"]}, {"op": "reset", "b": b},
+                              {"op": "prim", "b": b, "fn": c["fn"], "args": c["a"], "tag": "model-case-recycled-buffer"}]
+                else:
+                    group += [{"op": "write", "b": b, "bytes": [9, 9, 9]}, {"op": "next", "b": b, "k": 3},     # consumed prior content: the primitive must only append
+                              {"op": "prim", "b": b, "fn": c["fn"], "args": c["a"], "tag": "model-case"}]
                 if c["ok"]:
                     group.append({"op": "prim", "b": b, "fn": c["rfn"], "args": c["a"], "tag": "read-back"})
                 if k % 40 == 39:
